@@ -305,10 +305,14 @@ Definition event_eqb (a b : event) : bool :=
 Definition pend_eqb (a b : pend) : bool := match a, b with PData, PData | PChild, PChild => true | _, _ => false end.
 Definition proj (n : name) (l : list event) : list event := filter (fun e => Z.eqb (ev_name e) n) l.
 Definition count_raised (l : list event) : nat := length (filter ev_raised l).
-(* equal up to commutation of events of different members; which of the callbacks of one step raised
-   depends on the set iteration order, so only their number is compared *)
+(* equal up to commutation of events of different members of the same kind: the worker announces the
+   leaves of a batch before its joins (a consumer that identifies members by endpoint relies on it when a
+   server restarts under a new node name), so the sequence of kinds must agree exactly; the order among the
+   leaves (resp. joins) of one batch is a set iteration order.  Which of the callbacks of one step raised
+   depends on that order too, so only their number is compared *)
 Definition events_equiv (a b : list event) : bool :=
   Nat.eqb (length a) (length b) && Nat.eqb (count_raised a) (count_raised b) &&
+  list_eqb kind_eqb (map ev_kind a) (map ev_kind b) &&
   forallb (fun e => list_eqb event_eqb (proj (ev_name e) (map erase_ev a)) (proj (ev_name e) (map erase_ev b))) (a ++ b).
 Definition subset (a b : list name) : bool := forallb (fun x => mem x b) a.
 Definition set_eqb (a b : list name) : bool := subset a b && subset b a.
